@@ -60,7 +60,8 @@ def run_tlc(module, cfg=None, *, cfg_text=None, workers=16, simulate=None, depth
             cfg_path = SPEC / (cfg if cfg.endswith(".cfg") else cfg + ".cfg")
             if not cfg_path.exists():
                 raise MachineryError(f"missing cfg {cfg_path}")
-        cmd = ["java", "-XX:+UseParallelGC", f"-Xmx{heap}", "-Xss64m"]
+        (work / "jtmp").mkdir(exist_ok=True)          # TLC unpacks its standard modules into java.io.tmpdir and leaves them there
+        cmd = ["java", "-XX:+UseParallelGC", f"-Xmx{heap}", "-Xss64m", f"-Djava.io.tmpdir={work / 'jtmp'}"]
         if dfs:
             cmd.append("-Dtlc2.tool.queue.IStateQueue=StateDeque")
         cmd += ["-cp", JAR, "tlc2.TLC", "-config", str(cfg_path), "-metadir", str(work / "meta"),
